@@ -186,16 +186,26 @@ def _flags_polars_sort(chk, pol, sort, items):
     if pos_desc is None or pos_nl is None:
         return
     unpack = None
+    between = []  # statements of the slice between the unpacking and the sort call (temporaries, assertions)
     for st, _ in flat(items):
         if isinstance(st, ast.Assign) and isinstance(st.targets[0], ast.Tuple) and "compile_order" in norm(st.value):
             unpack = [norm(e) for e in st.targets[0].elts]
+            between = []
+        elif any(n is sort for n in ast.walk(st)):
+            break
+        elif unpack is not None and isinstance(st, (ast.Assign, ast.AnnAssign)):
+            between.append(st)
     if unpack is None or len(unpack) != 3:
         raise AnalysisError("C05/R3: cannot find the unpacking of compile_order results in the Arrange branch")
     for desc in (True, False):
         for nl in (None, True, False):
             ev = Evaluator({unpack[pos_desc]: [desc], unpack[pos_nl]: [nl], unpack[0]: [Sym("key")]})
             try:
-                v = ev.ev(sort, {**ev.binding})
+                env = {**ev.binding}
+                ev.decisions, ev.forced = {}, []
+                for st in between:
+                    ev._stmt(st, env)
+                v = ev.ev(sort, env)
             except Exception as u:
                 raise AnalysisError(f"C05/R3: cannot evaluate the Polars sort call: {u}") from u
             kws = {t[1]: t[2] for t in v.tags if t[0] == "kw"}
@@ -485,19 +495,24 @@ def _over_wiring(chk, repo, m):
     # shift: sign of the offset selects LAG / LEAD
     for r in m.regs:
         if r.opvar == "shift" and r.store == "SqlImpl":
-            params = [a.arg for a in r.func.args.args]
-            for by, want in ((2, "LAG"), (-3, "LEAD"), (0, "LAG")):
-                ev = Evaluator({params[1]: by, params[0]: Sym("x"), params[2]: None})
+            from ..interp import SymbolicBranch, Term, Var
+            from ..termsim import TermWorld, fn_name
+
+            tw = TermWorld(r.module)
+            x = Var("x")
+            for by, fill, want in ((2, None, "LAG"), (-3, None, "LEAD"), (0, None, "LAG"), (1, 7, "LAG"), (-1, 7, "LEAD")):
                 try:
-                    outs = ev.run_function(r.func)
-                except Unsupported as u:
-                    raise AnalysisError(f"C05/R5: cannot evaluate SQL _shift: {u}") from u
-                for ret, env, _ in outs:
-                    calls = {t[1] for t in all_tags(ret) if t[0] == "call"}
-                    pos = [t[2] for t in all_tags(ret) if t[0] == "callpos" and t[1] in ("LAG", "LEAD")]
-                    good = want in calls and not ({"LAG", "LEAD"} - {want}) & calls and pos and pos[0][:2] == ("x", repr(abs(by)))
-                    chk.ob("R5", r.module, r.func, f"SQL shift(x, {by}) -> {sorted(calls & {'LAG','LEAD'})}{pos[0] if pos else ''}", bool(good),
-                           f"SQL shift by {by} compiles to {sorted(calls)} with arguments {pos}; documented: {want}(x, {abs(by)})")  # fmt: skip
+                    out = tw.run(r.func, [x, by, fill])
+                except SymbolicBranch as sb:
+                    chk.undecided.append(f"R5: SQL shift branches on a symbolic value: {sb}")
+                    continue
+                t = out[1] if out[0] == "term" else None
+                good = (
+                    isinstance(t, Term) and fn_name(t) == want and len(t.args) >= 2 and t.args[0] == x and t.args[1] == abs(by)
+                    and (tuple(t.args[2:]) == ((fill,) if fill is not None else ()))
+                )  # fmt: skip
+                chk.ob("R5", r.module, r.func, f"SQL shift(x, {by}, {fill}) -> {t!r}"[:150], bool(good),
+                       f"SQL shift by {by} (fill {fill}) compiles to {t!r}; documented: {want}(x, {abs(by)}{', ' + str(fill) if fill is not None else ''})")  # fmt: skip
         if r.opvar == "shift" and r.store == "PolarsImpl":
             params = [a.arg for a in r.func.args.args]
             c = next((c for c in calls_in(r.func) if isinstance(c.func, ast.Attribute) and c.func.attr == "shift"), None)
